@@ -1235,8 +1235,19 @@ def chain_discipline(ctx, rule, f, producers, label):
         ctx.ob(rule, '%s: the new element becomes the tail on every iteration' % label, bool(lat) and all(is_t(v) for v in lat),
                'a tail that stays behind makes the next append overwrite the link to every element in between, which is then '
                'dequeued but never made runnable', loc=p.loc, detail=', '.join(describe(f, v) for v in lat))
+        def tested_nonnull(st):
+            # a test of the loop-carried tail itself (this iteration's value), not of some other value that merely shares its origins
+            for ic in f.order:
+                if ic.op == 'icmp' and ic.pred in ('eq', 'ne') and isinstance(ic.ops[0], str) and f.strip(ic.ops[0]) == ph.id and \
+                        isinstance(ic.ops[1], dict) and (ic.ops[1].get('null') or ic.ops[1].get('c') == 0):
+                    for cond, pol in cond_chain(f, ic.id, True):
+                        for br, t_, f_ in f.cond_edges(cond):
+                            nn = t_ if (pol == (ic.pred == 'ne')) else f_
+                            if f.edge_dominates(br.block.id, nn, st):
+                                return True
+            return False
         for st in links:
-            ctx.ob(rule, '%s: link only behind an existing tail' % label, guarded_by_nonnull(f, ph.id, st), 'if (tail) tail->next = t',
+            ctx.ob(rule, '%s: link only behind an existing tail' % label, tested_nonnull(st), 'if (tail) tail->next = t',
                    loc=st.loc)
     for ph in heads:
         lat = [v for v, b in ph.d['incoming'] if b in lp['blocks']]
